@@ -137,13 +137,16 @@ class C03(Prop):
                   "(FIN, FIN inside a frame, RESET, still open) and the documented call pattern the model's observable outcome "
                   "is the one the RFC 9114 §4.1 recogniser U* H (U|D)* (H U*)? prescribes (body = DATA payloads in order, each "
                   "byte once; end of body only at trailers/FIN; trailers iff present; every other sequence H3_FRAME_UNEXPECTED; "
-                  "server FIN-before-HEADERS = stream refused with H3_REQUEST_INCOMPLETE, error cell untouched); lifted to the "
-                  "FrameStream model over any transport script through a stated simulation hypothesis (the C02 facts)")
+                  "server FIN-before-HEADERS = stream refused with H3_REQUEST_INCOMPLETE, error cell untouched); lifted "
+                  "unconditionally to the FrameStream model over EVERY transport script (any chunking, Pending anywhere, "
+                  "FIN/RESET/open) by a simulation proved from the C02 invariant (C03_lifted_to_chunks_closed); for FIN on a "
+                  "frame boundary and for still-open streams the outcome is a function of the wire bytes alone "
+                  "(C03_chunked_outcome_fin/_open)")
     level_note = ("trusted: Lean kernel + 3 standard axioms; hand model tied to the code by running real h3::server / h3::client "
                   "objects over SimQuic on the same scenario lines as the composed Lean model (request layer over the FrameStream "
                   "model); QPACK/header validation is an oracle on the five header blocks the generator uses (C11/C12); the "
                   "connection driver is modelled as 'an active accept loop / wait_idle closes with the code in the cell' (C05); "
-                  "C03_lifted_to_chunks assumes the frame-layer simulation `Sim fsSrc tokSrc` (to be discharged by C02)")
+                  "C03_lifted_to_chunks_closed has no simulation hypothesis left (side conditions: non-empty chunks, no 0x41 frame header in the bytes, header blocks acceptable to the header oracle)")
     rule = ("cases: `req` scenario lines; every sequence of length <= 5 (thorough: plus every length-6 sequence whose first five "
             "letters do not already end the reading) over the 11-letter alphabet {HEADERS, DATA(0), DATA(n), unknown(0), "
             "unknown(n), CANCEL_PUSH, SETTINGS, GOAWAY, MAX_PUSH_ID, PUSH_PROMISE, H2-reserved} x endings {FIN, RESET, open} x "
